@@ -1,4 +1,4 @@
-import MlModel.Lemmas.TreeNd
+import MlModel.Lemmas.TreeFlavour
 /-!
 # C18 — tree views obey get/set laws and never mutate the viewed data
 
@@ -501,6 +501,80 @@ theorem C18_getV_agrees {h : Heap} {t : Ref} {p : Path} {x : Ref} (hg : get h t 
     subst hg
     exact ⟨y.2, getV_of_getCore h p t y hc⟩
 
+/-! ## C18_key_flavour — `Key.Index(i)` and the plain int `i` as path elements
+
+`Index` subclasses `int` (`Index(i) == i`, same hash), so a dict lookup cannot tell them apart, but a dict keeps
+the key OBJECT it was first given and `items()` lists that object.  Since wp-C18F the model stores key objects
+(`DKey.idx` vs `DKey.int`, lookups compare `DKey.norm`), so the correspondence compares the flavour of every dict
+key and of every element of a listed path (before, it had to canonicalise them, and a hole in that
+canonicalisation was a thorough-tier false alarm).  These theorems say that nothing the property talks about
+depends on the flavour: `PKey.flav` maps `Index(i)` to `i` and is the identity on every other key; two paths have
+the same *normal form* when `p.map flav = q.map flav`. -/
+
+/-- **Reads cannot tell `Index(i)` from `i`**: two paths of equal normal form read the same — the same object
+or the same error — through the reference-valued `__get` and through the complete one (paths into ndarrays);
+every heap, every path, SELF / SKIP / Literal keys included. -/
+theorem C18_key_flavour_read (h : Heap) (t : Ref) {p q : Path} (e : p.map PKey.flav = q.map PKey.flav) :
+    get h t p = get h t q ∧ getV h t p = getV h t q :=
+  ⟨get_congr_flav h t e, getV_congr_flav h t e⟩
+
+/-- … and so do multi-key reads. -/
+theorem C18_key_flavour_multikey (h : Heap) (t : Ref) (ks : List Path) :
+    getItem h t (.multi (ks.map (List.map PKey.flav))) = getItem h t (.multi ks) := by
+  simp only [getItem, mapM_get_flav]
+
+/-- **Whatever flavour a path listed by `items()` is spelled in, it reads back its leaf** (the read-back clause
+of `C18_items` for every spelling of the listed path, also through the complete `__get`). -/
+theorem C18_key_flavour_items {h : Heap} (hg : GoodDicts h) {root : Ref} {n : Node} (hn : h[root]? = some n)
+    (hc : n.children ≠ []) {kvs : List (Path × Ref)} (hi : items h root = .ok kvs) {p : Path} {x : Ref}
+    (hm : (p, x) ∈ kvs) {q : Path} (e : q.map PKey.flav = p.map PKey.flav) :
+    get h root q = .ok x ∧ ∃ m, getV h root q = .ok (.obj x, m) := by
+  have hp := ((C18_items hg hn hc hi).2.2 p x hm).2
+  have hq : get h root q = .ok x := by rw [get_congr_flav h root e]; exact hp
+  exact ⟨hq, C18_getV_agrees hq⟩
+
+/-- **On a path that exists, a copying set cannot tell them apart either** — strict or not, every heap: same
+resulting heap (the key objects held by every dict included), same result or same error.  `Ex h t p`: every key
+of `p` but the last addresses a stored child; the last may be the append index of a sequence, but where it
+addresses a dict it is a key already (a FRESH dict key is stored as the object given — the second witness below);
+whatever follows SELF / SKIP is ignored; Literal keys are the dict keys they are for `set`; below an ndarray
+anything goes — paths INTO arrays included. -/
+theorem C18_key_flavour_set (strict : Bool) (v : Ref) {h : Heap} {t : Ref} {p q : Path} (x : Ex h t p)
+    (e : q.map PKey.flav = p.map PKey.flav) :
+    setPath strict false h t q v = setPath strict false h t p v :=
+  setPath_congr_flav strict v x e
+
+/-- … in particular for every path listed by `items()`: a copying set through any spelling of a listed path
+is the same set. -/
+theorem C18_key_flavour_items_set (strict : Bool) (v : Ref) {h : Heap} (hg : GoodDicts h) {root : Ref}
+    {n : Node} (hn : h[root]? = some n) (hc : n.children ≠ []) {kvs : List (Path × Ref)}
+    (hi : items h root = .ok kvs) {p : Path} {x : Ref} (hm : (p, x) ∈ kvs) {q : Path}
+    (e : q.map PKey.flav = p.map PKey.flav) :
+    setPath strict false h root q v = setPath strict false h root p v :=
+  setPath_congr_flav strict v (Ex.of_leafWalk hg ((C18_items hg hn hc hi).2.2 p x hm).1) e
+
+/-- … and for every path of plain keys that READS: `copy_and_set` through any spelling of it. -/
+theorem C18_key_flavour_set_readable (strict : Bool) (v : Ref) {h : Heap} {t x : Ref} {p q : Path}
+    (hp : PlainSelf p) (hg : get h t p = .ok x) (e : q.map PKey.flav = p.map PKey.flav) :
+    copyAndSet strict h t (.path q) v = copyAndSet strict h t (.path p) v := by
+  simp only [copyAndSet, setItem, setPath_congr_flav strict v (Ex.of_get p t x hp hg) e]
+
+/-- Witnesses (tests, `decide`): where the flavour IS visible, so `Ex` cannot be dropped from
+`C18_key_flavour_set`.  (1) a FRESH path: `_default_tree` builds a list for `Index(0)` and a dict for `0`
+(tree.py:276-283); (2) a FRESH key of an existing dict is stored as the object given: `{'a': .., Index(1): v}`
+vs `{'a': .., 1: v}` — and `items()` lists it as stored; (3) an EXISTING entry keeps its key object. -/
+theorem C18_key_flavour_fresh_witness :
+    (setPath false false #[.null, .leaf (.int 1)] 0 [.idx 0] 1).1[2]? = some (.list [1]) ∧
+    (setPath false false #[.null, .leaf (.int 1)] 0 [.int 0] 1).1[2]? = some (.dict [(.int 0, 1)]) ∧
+    [PKey.idx 0].map PKey.flav = [PKey.int 0].map PKey.flav ∧
+    (setPath false false #[.dict [(.str "a", 1)], .leaf (.int 1)] 0 [.idx 1] 1).1[2]? =
+      some (.dict [(.str "a", 1), (.idx 1, 1)]) ∧
+    (setPath false false #[.dict [(.str "a", 1)], .leaf (.int 1)] 0 [.int 1] 1).1[2]? =
+      some (.dict [(.str "a", 1), (.int 1, 1)]) ∧
+    items #[.dict [(.str "a", 1), (.idx 1, 1)], .leaf (.int 1)] 0 = .ok [([.str "a"], 1), ([.idx 1], 1)] ∧
+    (setPath false false #[.dict [(.idx 1, 1)], .leaf (.int 1)] 0 [.int 1] 1).1[2]? = some (.dict [(.idx 1, 1)]) :=
+  ⟨by decide, by decide, by decide, by decide, by decide, rfl, by decide⟩
+
 /-! ## non-vacuity: a concrete heap satisfies every hypothesis used above (tests, not theorems) -/
 
 section Examples
@@ -574,5 +648,15 @@ example : (applyFn false (some wrapFn) h0 3).2 = .ok 14 := rfl
 example : getItem h0 3 (.multi [[.idx 1], [.idx 0, .str "b"]]) = .ok (.many [0, 1]) := rfl
 
 end Examples
+
+-- C18_key_flavour: `Ex` holds of a readable path and of a path whose last key is fresh
+example : Ex h0 3 [.idx 0, .str "a"] := Ex.of_get _ 3 0 (by simp [PlainSelf, PKey.isPlain]) rfl
+example : Ex h0 3 [.int 0, .str "b"] :=
+  .step (n := .list [2, 0]) rfl rfl (.last (n := .dict [(.str "a", 0), (.str "b", 1)]) _ rfl (by simp)
+    (fun es e => by cases e; exact ⟨1, rfl⟩))
+example : Ex h0 3 [.int 2] := .last (n := .list [2, 0]) _ rfl (by simp) (fun es e => by cases e)   -- the append index
+example : [PKey.int 0, .str "a"].map PKey.flav = [PKey.idx 0, .str "a"].map PKey.flav := rfl
+example : Ex hA 3 [.str "a", .int 1, .idx 2, .str "anything"] :=
+  .step (n := .dict [(.str "a", 1), (.str "row", 2)]) rfl rfl (.nd _ _ (b := 0) (off := 0) (shape := [2, 3]) rfl)
 
 end MlModel.C18
